@@ -11,10 +11,12 @@ CONSTANTS
   Temps = {"any"}
   Acts = {"temp", "hard", "gumbel", "disable", "mode", "fwd", "alpha", "load", "summary", "export"}
   Writes = {"copy", "data", "optim"}
-  Ckpts = {"soft", "onehot", "probF", "probT"}
+  Ckpts = {"soft", "onehot"}
   Moves = "gen"
   InitAlpha = "ctor"
   AllowKF = FALSE
+  Grads = {TRUE, FALSE}
+  SelHows = {}
 INVARIANT TypeOK
 INVARIANT SampledIsProb
 INVARIANT OneHotAtArgmax
@@ -23,6 +25,7 @@ INVARIANT SoftKeepsWinner
 INVARIANT ReportIsArgmax
 INVARIANT ExportIsArgmax
 INVARIANT ReportIsExport
+INVARIANT ForwardSamples
 PROPERTY DisabledKeeps
 PROPERTY ThetaOnlyBySampling
 PROPERTY AlphaOnlyByWrites
